@@ -27,6 +27,7 @@ import (
 	"github.com/nuts-foundation/go-did/did"
 	"github.com/nuts-foundation/nuts-node/network/transport"
 	"github.com/nuts-foundation/nuts-node/vdr/resolver"
+	"maps"
 )
 
 // NetworkDocumentValidator creates a DID Document validator that checks for inconsistencies in the DID Document:
@@ -92,7 +93,36 @@ func (v verificationMethodValidator) Validate(document did.Document) error {
 			return fmt.Errorf("invalid verificationMethod: %w", err)
 		}
 	}
+	// A verification method that is embedded in a verification relationship (instead of being referenced from it)
+	// is a key of the document just like the listed ones, so the same rules apply.
+	for _, relationships := range []did.VerificationRelationships{document.Authentication, document.AssertionMethod,
+		document.KeyAgreement, document.CapabilityInvocation, document.CapabilityDelegation} {
+		for _, relationship := range relationships {
+			if !isEmbedded(relationship) {
+				continue
+			}
+			// the ID may not be the ID of one of the listed verification methods
+			takenIDs := maps.Clone(knownKeyIds)
+			if err := verifyDocumentEntryID(document.ID, relationship.ID.URI(), takenIDs); err != nil {
+				return fmt.Errorf("invalid embedded verificationMethod: %w", err)
+			}
+			if err := v.verifyThumbprint(relationship.VerificationMethod); err != nil {
+				return fmt.Errorf("invalid embedded verificationMethod: %w", err)
+			}
+		}
+	}
 	return nil
+}
+
+// isEmbedded returns whether the relationship contains its verification method, instead of a reference to one of the document's verificationMethods.
+// A relationship is serialized as JSON object when it embeds the method, and as string (the ID) when it is a reference.
+func isEmbedded(relationship did.VerificationRelationship) bool {
+	if relationship.VerificationMethod == nil {
+		return false
+	}
+	data, err := relationship.MarshalJSON()
+	isReference := err == nil && len(data) > 0 && data[0] == '"'
+	return !isReference
 }
 
 func (v verificationMethodValidator) verifyThumbprint(method *did.VerificationMethod) error {
